@@ -193,6 +193,17 @@ theorem C16_page_ctm (x0 y0 x1 y1 : Rat) :
     apply_matrix_pt (pageCtm 270 x0 y0 x1 y1) (x0, y1) = (0, 0) := by
   refine ⟨?_, ?_, ?_, ?_⟩ <;> simp [pageCtm, apply_matrix_pt] <;> grind
 
+/-! ## Totality -/
+
+/-- On EVERY token stream over the modelled operators (any operands, any counts, any order) the
+interpreter model finishes without an exception: in particular `sc scn SC SCN` with too few operands
+(which raised TypeError/IndexError in the pinned code) only leave the colour unchanged. -/
+theorem C16_never_raises (rot : Int) (mb : Rect) (res : List (String × CsSpec)) (toks : List Tok) :
+    ∃ shapes, runPage rot mb res toks = .ok shapes := by
+  obtain ⟨x0, y0, x1, y1⟩ := mb
+  obtain ⟨st', h⟩ := execute_ok toks (initState (pageCtm rot x0 y0 x1 y1) res)
+  exact ⟨st'.out, by simp only [runPage, h]⟩
+
 /-! ## No residue -/
 
 /-- Every painting operator and `n` leaves an empty current path (nothing leaks into the next path). -/
